@@ -133,8 +133,12 @@ def rule_C06(env):
             else:
                 val = E.strip_casts(parts2[0][1])
                 if not same(val, want):
+                    via_results = sorted({str(x.attrs.get("name")) for x in (val.leaves() if hasattr(val, "leaves") else []) if str(x.attrs.get("name", "")).endswith("_result")})
                     res.add("R06.c", "generate_internal/size-term/V%d" % ver,
-                            "frame size term %r is not (final output length) - (frame position + 9) = %r" % (val, want), loc)
+                            "frame size term %r is not (final output length) - (frame position + 9) = %r%s" % (val, want,
+                            ("; it is accumulated from the values returned by %s, and what those calls return is not the number of bytes that finally "
+                             "stay in the buffer unless every later rewrite of the emitted bytes (post_process_emission, truncation) is accounted for: "
+                             "only the buffer itself is authoritative" % ", ".join(via_results)) if via_results else ""), loc)
             # nothing is appended after the size was computed: the last write before the patches is STOP
             li = max(i for i, w in enumerate(ws) if w[0] == "patch")
             fi = min(i for i, w in enumerate(ws) if w[0] == "patch")
